@@ -34,7 +34,8 @@ Fixpoint corr_hist (c : cfg) (pool : list atom) (i : Z) (d : dict) (h : list (op
   match h with
   | [] => []
   | (o, ob) :: r =>
-      map (fun k => 100 * i + k) (obs_diff (map fst (c_traits c)) (snd (step c pool d o)) ob)
+      map (fun k => 100 * i + k) (obs_diff (map fst (c_traits c) ++ map (fun p => shadow (fst p)) (c_traits c))
+                                         (snd (step c pool d o)) ob)
       ++ corr_hist c pool (i + 1) (o_dict ob) r
   end.
 
